@@ -1,6 +1,24 @@
-(* Ops/C03.v — protocol entry points for property C03 (stub until the model is built). *)
-From Coq Require Import List String.
-From PrefVerif Require Import Lib.Val.
+(* Ops/C03.v — protocol entry points for property C03 (single-peakedness of strict profiles).
+   payload conventions: ranking = flat list of N (best first); profile = list of rankings; dtype as in Ops/C11. *)
+From Coq Require Import List ZArith NArith String.
+From PrefVerif Require Import Lib.Val Model.SP.
 Import ListNotations.
+Open Scope string_scope.
 
-Definition ops : optable := [].
+Definition d_dt (v : val) : ord_dt :=
+  match dnat v with 0 => DTsoc | 1 => DTsoi | 2 => DTtoc | 3 => DTtoi | _ => DTother end.
+Definition d_alts (v : val) : list N := dlist dN v.
+Definition d_rankings (v : val) : list ranking := dlist (dlist dN) v.
+
+(* (alts rankings) -> bool *)
+Definition op_decide (v : val) : val :=
+  ebool (sp_decide (d_alts (dnth 0 v)) (d_rankings (dnth 1 v))).
+(* (alts rankings axis) -> bool *)
+Definition op_check_axis (v : val) : val :=
+  ebool (sp_check_axis (d_alts (dnth 0 v)) (d_rankings (dnth 1 v)) (d_alts (dnth 2 v))).
+(* (dtype alts rankings) -> result bool *)
+Definition op_run (v : val) : val :=
+  eresult ebool (is_single_peaked_model (d_dt (dnth 0 v)) (d_alts (dnth 1 v)) (d_rankings (dnth 2 v))).
+
+Definition ops : optable :=
+  [ ("c03.decide", op_decide); ("c03.check_axis", op_check_axis); ("c03.run", op_run) ].
